@@ -137,7 +137,7 @@ func runC03(c *explore.Ctx) {
 				nums = m.DocumentNumbers()
 			})
 			if msg != "" || err != nil {
-				c.Violate(scope, idx, sigOf("C03", "public-merge", "error: "+msg+fmt.Sprint(err)), msg+fmt.Sprint(err), cas)
+				c.Violate(scope, idx, sigOf("C03", "public-merge", "error: "+errText(msg, err)), errText(msg, err), cas)
 				return
 			}
 			l, err := loadMem(b)
@@ -201,7 +201,7 @@ func checkStats(c *explore.Ctx, scope string, idx int64, where string, seg segme
 		}
 	})
 	if msg != "" || err != nil {
-		c.Violate(scope, idx, sigOf("C16", where, "error: "+msg+fmt.Sprint(err)), msg+fmt.Sprint(err), cas)
+		c.Violate(scope, idx, sigOf("C16", where, "error: "+errText(msg, err)), errText(msg, err), cas)
 		return false
 	}
 	c.Outcome(explore.Hash(fmt.Sprint(got)))
